@@ -25,7 +25,7 @@ import re
 import subprocess
 import time
 
-from extract import Lift, Lost, Source, lift_item, segments_to_lines
+from extract import Lift, Lost, Source, lift_item, segments_to_lines, load_macro
 
 REPO = os.environ.get('VERIF_REPO', '/repo')
 
@@ -177,6 +177,10 @@ class Unit:
             elif d == 'sig':
                 lift.sig_rewrites.append(_parse_quoted_pair(rest, where))
                 section = None
+            elif d == 'expand':
+                mname, mfile = rest.split()
+                lift.expand_files = getattr(lift, 'expand_files', {})
+                lift.expand_files[mname] = mfile
             elif d == 'no-canary':
                 lift.no_canary = True
             elif d == 'derive':
@@ -224,6 +228,8 @@ class Unit:
             else:
                 lift = ch[1]
                 src = self.source(lift.file)
+                for mname, mfile in getattr(lift, 'expand_files', {}).items():
+                    lift.expand[mname] = load_macro(self.source(mfile), mname)
                 segs, report, info = lift_item(src, lift)
                 lines = segments_to_lines(segs, src)
                 first = len(self.gen_lines) + 1
@@ -262,7 +268,13 @@ class Unit:
                 continue
             if re.search(r'external_body|assume_specification|\bassume\s*\(|\badmit\s*\(|external_type_specification|'
                          r'verifier::external\b|accept_recursive_types|reject_recursive_types', t):
-                self.trusted.append('%s (generated line %d): %s' % (self.name, no, t.strip()[:160]))
+                shown = t.strip()
+                if re.match(r'\s*#\[verifier::[a-z_]+\]\s*$', t):
+                    for t2, _ in self.gen_lines[no:no + 3]:
+                        if t2.strip():
+                            shown += ' ' + t2.strip()
+                            break
+                self.trusted.append('%s: %s' % (self.name, shown[:200]))
         return text
 
     def owner(self, gen_line):
